@@ -1,11 +1,752 @@
-//! C33 — not built yet (see DESIGN.md §5 C33).
+//! C33 — schema changes keep catalog, storage and index registry consistent (DESIGN §5 C33).
+//!
+//! Explicit-state search (vcore::histmc) over histories of DDL/DML statements that name two tables
+//! under several spellings (`t`, `"T"`, `"t"`, `"public".t`), a rename target and two index names.
+//! A small reference model tracks the *declared* objects (table -> column list, index -> table);
+//! in every reached state the catalog listing, the storage tables and both index registries are
+//! compared with the model and with each other, index contents are compared with the rows, point
+//! queries are compared with a scan, and every DDL transition must leave the data of retained
+//! columns untouched.
 
-pub fn run(_tier: &str) -> i32 {
-    eprintln!("MACHINERY-ERROR C33 is not built yet");
-    2
+use std::collections::{BTreeMap, BTreeSet, HashMap};
+
+use serde_json::json;
+use vibesql_storage::database::IndexData;
+use vibesql_storage::Database;
+use vibesql_types::SqlValue;
+
+use vcore::exec::Out;
+use vcore::histmc::{self, Caps, Node, Spec};
+use vcore::report::Report;
+use vcore::val;
+
+use crate::common::{apply_op, describe, q, select_cols};
+
+// ---------------------------------------------------------------------------------------------
+// alphabet
+// ---------------------------------------------------------------------------------------------
+
+#[derive(Clone, Debug, PartialEq)]
+enum Kind {
+    CreateTable { cols: Vec<&'static str> },
+    DropTable,
+    CreateIndex { name: &'static str, cols: Vec<&'static str> },
+    /// `exact`: the spelling denotes the stored name under SQL identifier rules
+    DropIndex { name: &'static str, exact: bool },
+    AddColumn { col: &'static str },
+    DropColumn { col: &'static str },
+    RenameColumn { from: &'static str, to: &'static str },
+    RenameTable { to: &'static str },
+    Constraint,
+    Dml,
 }
 
-pub fn replay(_case: &serde_json::Value) -> i32 {
-    eprintln!("MACHINERY-ERROR C33 is not built yet");
-    2
+#[derive(Clone, Debug)]
+struct Op {
+    sql: String,
+    /// statement shape, for signatures
+    shape: &'static str,
+    /// how the table is spelled: folded | delimited_upper | delimited_lower | qualified | -
+    spelling: &'static str,
+    /// the table the statement denotes under SQL identifier rules (None for DROP INDEX)
+    target: Option<&'static str>,
+    kind: Kind,
+}
+
+fn op(sql: &str, shape: &'static str, spelling: &'static str, target: Option<&'static str>, kind: Kind) -> Op {
+    Op { sql: sql.to_string(), shape, spelling, target, kind }
+}
+
+fn alphabet(thorough: bool) -> Vec<Op> {
+    use Kind::*;
+    let ab = || vec!["A", "B"];
+    let mut v = vec![
+        // CREATE TABLE under different spellings; the qualified one declares other columns
+        op("CREATE TABLE t (a INT, b INT)", "create_table", "folded", Some("T"), CreateTable { cols: ab() }),
+        op("CREATE TABLE \"t\" (a INT, b INT)", "create_table", "delimited_lower", Some("t"), CreateTable { cols: ab() }),
+        op("CREATE TABLE \"public\".t (a INT, c INT)", "create_table", "qualified", Some("T"), CreateTable { cols: vec!["A", "C"] }),
+        op("DROP TABLE t", "drop_table", "folded", Some("T"), DropTable),
+        op("DROP TABLE \"t\"", "drop_table", "delimited_lower", Some("t"), DropTable),
+        op("DROP TABLE \"public\".t", "drop_table", "qualified", Some("T"), DropTable),
+        // indexes: two names, reused across tables
+        op("CREATE INDEX i ON t (b)", "create_index", "folded", Some("T"), CreateIndex { name: "I", cols: vec!["B"] }),
+        op("CREATE UNIQUE INDEX j ON t (a)", "create_unique_index", "folded", Some("T"), CreateIndex { name: "J", cols: vec!["A"] }),
+        op("CREATE INDEX i ON \"t\" (b)", "create_index", "delimited_lower", Some("t"), CreateIndex { name: "I", cols: vec!["B"] }),
+        op("DROP INDEX i", "drop_index", "folded", None, DropIndex { name: "I", exact: true }),
+        op("DROP INDEX \"i\"", "drop_index", "delimited_lower", None, DropIndex { name: "I", exact: false }),
+        // ALTER TABLE
+        op("ALTER TABLE t ADD COLUMN c INT", "alter_add_column", "folded", Some("T"), AddColumn { col: "C" }),
+        op("ALTER TABLE \"t\" ADD COLUMN c INT", "alter_add_column", "delimited_lower", Some("t"), AddColumn { col: "C" }),
+        op("ALTER TABLE t DROP COLUMN b", "alter_drop_column", "folded", Some("T"), DropColumn { col: "B" }),
+        op("ALTER TABLE \"T\" DROP COLUMN a", "alter_drop_column", "delimited_upper", Some("T"), DropColumn { col: "A" }),
+        op("ALTER TABLE t CHANGE COLUMN b b2 INT", "alter_rename_column", "folded", Some("T"), RenameColumn { from: "B", to: "B2" }),
+        op("ALTER TABLE t RENAME TO u", "alter_rename_table", "folded", Some("T"), RenameTable { to: "U" }),
+        op("ALTER TABLE t ADD CONSTRAINT uq UNIQUE (a)", "alter_add_unique", "folded", Some("T"), Constraint),
+        op("ALTER TABLE t ADD CONSTRAINT uqb UNIQUE (b)", "alter_add_unique", "folded", Some("T"), Constraint),
+        // DML
+        op("INSERT INTO t VALUES (1, 10)", "insert", "folded", Some("T"), Dml),
+        op("INSERT INTO t VALUES (2, 20), (3, 10)", "insert", "folded", Some("T"), Dml),
+        op("INSERT INTO \"t\" VALUES (5, 50)", "insert", "delimited_lower", Some("t"), Dml),
+        op("DELETE FROM t WHERE a = 1", "delete", "folded", Some("T"), Dml),
+        op("UPDATE t SET a = a + 10", "update", "folded", Some("T"), Dml),
+    ];
+    if thorough {
+        v.extend([
+            op("DROP TABLE \"T\"", "drop_table", "delimited_upper", Some("T"), DropTable),
+            op("DROP TABLE u", "drop_table", "folded", Some("U"), DropTable),
+            op("CREATE INDEX j ON u (a)", "create_index", "folded", Some("U"), CreateIndex { name: "J", cols: vec!["A"] }),
+            op("DROP INDEX j", "drop_index", "folded", None, DropIndex { name: "J", exact: true }),
+            op("ALTER TABLE t ADD CONSTRAINT ck CHECK (a > 0)", "alter_add_check", "folded", Some("T"), Constraint),
+            op("ALTER TABLE t DROP CONSTRAINT ck", "alter_drop_constraint", "folded", Some("T"), Constraint),
+            op("INSERT INTO t VALUES (4, 40, 400)", "insert", "folded", Some("T"), Dml),
+            op("INSERT INTO u VALUES (6, 10)", "insert", "folded", Some("U"), Dml),
+            op("ALTER TABLE t ADD PRIMARY KEY (a)", "alter_add_pk", "folded", Some("T"), Constraint),
+            op("ALTER TABLE \"t\" DROP COLUMN b", "alter_drop_column", "delimited_lower", Some("t"), DropColumn { col: "B" }),
+            op("ALTER TABLE u ADD COLUMN c INT", "alter_add_column", "folded", Some("U"), AddColumn { col: "C" }),
+            op("ALTER TABLE \"t\" RENAME TO u", "alter_rename_table", "delimited_lower", Some("t"), RenameTable { to: "U" }),
+            op("DROP TABLE IF EXISTS \"public\".\"t\"", "drop_table", "qualified", Some("t"), DropTable),
+            op("CREATE INDEX j ON t (a, b)", "create_index", "folded", Some("T"), CreateIndex { name: "J", cols: vec!["A", "B"] }),
+            op("DELETE FROM t", "delete", "folded", Some("T"), Dml),
+            op("INSERT INTO t (a) VALUES (7)", "insert", "folded", Some("T"), Dml),
+        ]);
+    }
+    v
+}
+
+// ---------------------------------------------------------------------------------------------
+// model of the declared objects
+// ---------------------------------------------------------------------------------------------
+
+#[derive(Clone, Debug, Default, PartialEq)]
+pub struct M {
+    /// declared table (exact stored name) -> declared column names in order
+    tables: BTreeMap<String, Vec<String>>,
+    /// declared index (upper-cased name) -> (table, columns)
+    indexes: BTreeMap<String, (String, Vec<String>)>,
+}
+
+/// Result of a model step: the new model plus the indexes that the statement may legitimately
+/// have removed or rewritten (DROP COLUMN / rename semantics differ between SQL products).
+struct Stepped {
+    m: M,
+    /// index names whose absence is acceptable after this statement
+    may_vanish: BTreeSet<String>,
+    /// tables whose rows need not be preserved (dropped / newly created)
+    column_map: Option<(String, String, BTreeMap<String, String>)>, // (pre table, post table, pre col -> post col)
+}
+
+fn model_step(m: &M, o: &Op, ok: bool) -> Stepped {
+    let mut n = m.clone();
+    let mut may_vanish = BTreeSet::new();
+    let mut column_map = None;
+    if !ok {
+        return Stepped { m: n, may_vanish, column_map };
+    }
+    let tgt = o.target.map(|s| s.to_string());
+    match &o.kind {
+        Kind::CreateTable { cols } => {
+            let t = tgt.unwrap();
+            n.tables.insert(t, cols.iter().map(|c| c.to_string()).collect());
+        }
+        Kind::DropTable => {
+            let t = tgt.unwrap();
+            n.tables.remove(&t);
+            n.indexes.retain(|_, (tb, _)| *tb != t);
+        }
+        Kind::CreateIndex { name, cols } => {
+            let t = tgt.unwrap();
+            if !n.indexes.contains_key(*name) && n.tables.contains_key(&t) {
+                n.indexes.insert(name.to_string(), (t, cols.iter().map(|c| c.to_string()).collect()));
+            }
+        }
+        Kind::DropIndex { name, exact } => {
+            if *exact {
+                n.indexes.remove(*name);
+            } else {
+                // a differently-cased delimited spelling: whether it denotes the index depends on
+                // the (unstated) case rule for index names; both outcomes are accepted
+                may_vanish.insert(name.to_string());
+            }
+        }
+        Kind::AddColumn { col } => {
+            if let Some(c) = n.tables.get_mut(tgt.as_ref().unwrap()) {
+                c.push(col.to_string());
+            }
+        }
+        Kind::DropColumn { col } => {
+            let t = tgt.unwrap();
+            if let Some(c) = n.tables.get_mut(&t) {
+                c.retain(|x| x != col);
+            }
+            // an index over the dropped column may be dropped or lose the column
+            for (iname, (tb, cols)) in n.indexes.iter_mut() {
+                if *tb == t && cols.iter().any(|c| c == col) {
+                    may_vanish.insert(iname.clone());
+                    cols.retain(|c| c != col);
+                }
+            }
+        }
+        Kind::RenameColumn { from, to } => {
+            let t = tgt.unwrap();
+            if let Some(c) = n.tables.get_mut(&t) {
+                let mut map = BTreeMap::new();
+                for x in c.iter_mut() {
+                    if x == from {
+                        map.insert(from.to_string(), to.to_string());
+                        *x = to.to_string();
+                    } else {
+                        map.insert(x.clone(), x.clone());
+                    }
+                }
+                column_map = Some((t.clone(), t.clone(), map));
+            }
+            for (iname, (tb, cols)) in n.indexes.iter_mut() {
+                if *tb == t && cols.iter().any(|c| c == from) {
+                    may_vanish.insert(iname.clone());
+                    for c in cols.iter_mut() {
+                        if c == from {
+                            *c = to.to_string();
+                        }
+                    }
+                }
+            }
+        }
+        Kind::RenameTable { to } => {
+            let t = tgt.unwrap();
+            if let Some(cols) = n.tables.remove(&t) {
+                let map = cols.iter().map(|c| (c.clone(), c.clone())).collect();
+                n.tables.insert(to.to_string(), cols);
+                column_map = Some((t.clone(), to.to_string(), map));
+            }
+            // indexes of the renamed table may follow it or be dropped
+            for (iname, (tb, _)) in n.indexes.iter_mut() {
+                if *tb == t {
+                    may_vanish.insert(iname.clone());
+                    *tb = to.to_string();
+                }
+            }
+        }
+        Kind::Constraint | Kind::Dml => {}
+    }
+    Stepped { m: n, may_vanish, column_map }
+}
+
+// ---------------------------------------------------------------------------------------------
+// views of the real database
+// ---------------------------------------------------------------------------------------------
+
+fn bare(key: &str) -> String {
+    vcore::obs::bare(key)
+}
+
+type IdxView = BTreeMap<String, (String, Vec<String>)>;
+
+fn storage_indexes(db: &Database) -> IdxView {
+    let mut v = IdxView::new();
+    for name in db.list_indexes() {
+        if let Some(m) = db.get_index(&name) {
+            v.insert(m.index_name.to_uppercase(), (m.table_name.clone(), m.columns.iter().map(|c| c.column_name.clone()).collect()));
+        }
+    }
+    v
+}
+
+fn catalog_indexes(db: &Database) -> (IdxView, usize) {
+    let mut v = IdxView::new();
+    let all = db.catalog.list_all_indexes();
+    let n = all.len();
+    for m in all {
+        v.insert(m.name.to_uppercase(), (m.table_name.clone(), m.columns.iter().map(|c| c.column_name.clone()).collect()));
+    }
+    (v, n)
+}
+
+/// user-visible content of a table: column names and rows as the SELECT front end returns them
+fn visible(db: &Database, table: &str) -> Result<(Vec<String>, Vec<Vec<SqlValue>>), String> {
+    select_cols(db, &format!("SELECT * FROM {}", q(table)))
+}
+
+/// content of a table as storage holds it (state invariant I2 ties it to what SELECT returns)
+fn stored(db: &Database, table: &str) -> Option<(Vec<String>, Vec<Vec<SqlValue>>)> {
+    let key = db.tables.keys().find(|k| bare(k) == table)?;
+    let t = &db.tables[key];
+    Some((t.schema.columns.iter().map(|c| c.name.clone()).collect(), t.scan().iter().map(|r| r.values.clone()).collect()))
+}
+
+fn project(cols: &[String], rows: &[Vec<SqlValue>], want: &[String]) -> Option<Vec<Vec<val::NV>>> {
+    let idx: Option<Vec<usize>> = want.iter().map(|w| cols.iter().position(|c| c == w)).collect();
+    let idx = idx?;
+    let mut out: Vec<Vec<val::NV>> = vec![];
+    for r in rows {
+        let mut pr = vec![];
+        for i in &idx {
+            pr.push(val::norm(r.get(*i)?));
+        }
+        out.push(pr);
+    }
+    out.sort();
+    Some(out)
+}
+
+/// All state invariants against the model. Returns (invariant id, description) of the first failure.
+/// Text that determines what a query on `table` can see: its catalog entry and its stored table.
+fn table_text(db: &Database, table: &str) -> String {
+    let key = db.tables.keys().find(|k| bare(k) == table);
+    format!("{:?}\u{1}{:?}", db.catalog.get_table(table), key.map(|k| &db.tables[k]))
+}
+
+/// Text of both index registries including the index data.
+fn index_text(db: &Database) -> String {
+    let mut names = db.list_indexes();
+    names.sort();
+    let data: Vec<String> = names.iter().map(|n| format!("{:?}={:?}", db.get_index(n), db.get_index_data(n).map(|d| format!("{:?}", d)))).collect();
+    let mut cat: Vec<String> = db.catalog.list_all_indexes().iter().map(|i| format!("{:?}", i)).collect();
+    cat.sort();
+    format!("{:?}\u{1}{:?}", data, cat)
+}
+
+/// All state invariants against the model. With `since = Some(pre)` (a state in which they held),
+/// the SELECT-based parts are evaluated only for what the transition changed: `SELECT *` for tables
+/// whose catalog entry or stored table differs from `pre`, the point queries for those tables too, and
+/// for every table if an index registry (definitions or data) changed. (Assumption: the answer of a query on a table is a function
+/// of that table's catalog entry, its stored table and the index registries. Initial states and
+/// replays pass `None` and evaluate everything.)
+fn check_state(db: &Database, m: &M, may_vanish: &BTreeSet<String>, since: Option<&Database>) -> Option<(&'static str, String)> {
+    let table_changed = |t: &str| match since {
+        Some(pre) => table_text(pre, t) != table_text(db, t),
+        None => true,
+    };
+    let indexes_changed = match since {
+        Some(pre) => index_text(pre) != index_text(db),
+        None => true,
+    };
+    // I1 — the three table listings name the declared tables
+    let want: BTreeSet<String> = m.tables.keys().cloned().collect();
+    let cat: BTreeSet<String> = db.catalog.list_tables().into_iter().collect();
+    if cat != want {
+        return Some(("catalog_table_listing", format!("catalog lists tables {:?}, declared are {:?}", cat, want)));
+    }
+    let sto: BTreeSet<String> = db.tables.keys().map(|k| bare(k)).collect();
+    if sto != want || db.tables.len() != want.len() {
+        return Some(("storage_table_listing", format!("storage holds tables {:?}, declared are {:?}", db.tables.keys().collect::<BTreeSet<_>>(), want)));
+    }
+    // I2 — every listed table is queryable with its declared columns, in all three places
+    for (t, cols) in &m.tables {
+        match db.catalog.get_table(t) {
+            Some(s) => {
+                let c: Vec<String> = s.columns.iter().map(|c| c.name.clone()).collect();
+                if &c != cols {
+                    return Some(("catalog_columns", format!("catalog describes {} with columns {:?}, declared are {:?}", t, c, cols)));
+                }
+            }
+            None => return Some(("catalog_table_listing", format!("catalog lists {} but cannot describe it", t))),
+        }
+        let key = db.tables.keys().find(|k| bare(k) == *t).cloned().unwrap();
+        let st = &db.tables[&key];
+        let c: Vec<String> = st.schema.columns.iter().map(|c| c.name.clone()).collect();
+        if &c != cols {
+            return Some(("storage_columns", format!("stored table {} has columns {:?}, declared are {:?}", t, c, cols)));
+        }
+        // the catalog's and the stored table's copies of the definition are the same description
+        let (a, b) = (vcore::fp::canon_debug(&format!("{:?}", db.catalog.get_table(t).unwrap())), vcore::fp::canon_debug(&format!("{:?}", st.schema)));
+        if a != b {
+            return Some(("schema_copies_differ", format!("catalog and storage hold different definitions of {}: {}", t, vcore::obs::first_diff(&a.replace(",", ",\n"), &b.replace(",", ",\n")))));
+        }
+        if st.schema.name != *t {
+            return Some(("storage_columns", format!("stored table under key {} calls itself {}", key, st.schema.name)));
+        }
+        if let Some(r) = st.scan().iter().find(|r| r.values.len() != cols.len()) {
+            return Some(("row_width", format!("stored table {} with {} columns holds a row of {} values", t, cols.len(), r.values.len())));
+        }
+        if !table_changed(t) {
+            continue;
+        }
+        match visible(db, t) {
+            Ok((c, rows)) => {
+                if &c != cols {
+                    return Some(("select_columns", format!("SELECT * FROM {} returns columns {:?}, declared are {:?}", q(t), c, cols)));
+                }
+                let stored_rows: Vec<Vec<SqlValue>> = st.scan().iter().map(|r| r.values.clone()).collect();
+                if rows.iter().all(|r| r.len() == cols.len()) && rows.len() == st.row_count() && !val::same_bag(&rows, &stored_rows) {
+                    return Some(("select_rows", format!("SELECT * FROM {} returns {} but the stored rows are {}", q(t), val::fmt_bag(&val::bag(&rows)), val::fmt_bag(&val::bag(&stored_rows)))));
+                }
+                if rows.iter().any(|r| r.len() != cols.len()) || rows.len() != st.row_count() {
+                    return Some(("select_rows", format!("SELECT * FROM {} returns {} rows (widths {:?}) for {} stored rows of {} columns", q(t), rows.len(), rows.iter().map(|r| r.len()).collect::<BTreeSet<_>>(), st.row_count(), cols.len())));
+                }
+            }
+            Err(e) => return Some(("not_queryable", format!("SELECT * FROM {} fails: {}", q(t), vcore::util::trunc(&e, 200)))),
+        }
+    }
+    // I3 — both index registries list the same indexes, and those are the declared ones
+    let si = storage_indexes(db);
+    let (ci, ci_n) = catalog_indexes(db);
+    if si != ci || ci_n != ci.len() || db.list_indexes().len() != si.len() {
+        return Some(("index_registries_differ", format!("storage registry lists {:?}, catalog registry lists {:?}", si, ci)));
+    }
+    for (name, (tb, cols)) in &si {
+        // I4 — no index without its table / columns
+        let Some(tcols) = m.tables.get(tb) else {
+            return Some(("index_without_table", format!("index {} is registered on table {} which is not a declared table ({:?})", name, tb, want)));
+        };
+        if let Some(c) = cols.iter().find(|c| !tcols.contains(c)) {
+            return Some(("index_without_column", format!("index {} on {} covers column {} but the table has columns {:?}", name, tb, c, tcols)));
+        }
+        match m.indexes.get(name) {
+            None => return Some(("undeclared_index", format!("index {} on {}({:?}) is registered but was never declared (or was dropped)", name, tb, cols))),
+            Some((mt, mc)) => {
+                if mt != tb || (mc != cols && !may_vanish.contains(name)) {
+                    return Some(("index_definition", format!("index {} is registered on {}({:?}), declared on {}({:?})", name, tb, cols, mt, mc)));
+                }
+            }
+        }
+    }
+    for name in m.indexes.keys() {
+        if !si.contains_key(name) && !may_vanish.contains(name) {
+            return Some(("declared_index_missing", format!("declared index {} is in neither registry", name)));
+        }
+    }
+    // I5 — index entries mirror the rows (no stale entries, none missing)
+    for (name, (tb, cols)) in &si {
+        let key = db.tables.keys().find(|k| bare(k) == *tb).cloned().unwrap();
+        let st = &db.tables[&key];
+        let rows = st.scan();
+        let ci: Vec<usize> = cols.iter().map(|c| st.schema.columns.iter().position(|x| x.name == *c).unwrap()).collect();
+        let Some(IndexData::InMemory { data }) = db.get_index_data(name) else { continue };
+        let mut seen: BTreeSet<usize> = BTreeSet::new();
+        // rows whose key contains NULL may or may not be indexed
+        let required: BTreeSet<usize> = rows.iter().enumerate().filter(|(_, r)| ci.iter().all(|i| !r.values[*i].is_null())).map(|(p, _)| p).collect();
+        for (k, ps) in data.iter() {
+            for p in ps {
+                let Some(r) = rows.get(*p) else {
+                    return Some(("stale_index_entry", format!("index {} on {} has an entry {:?} -> position {} but the table has {} rows", name, tb, k, p, rows.len())));
+                };
+                let rk: Vec<val::NV> = ci.iter().map(|i| val::norm(&r.values[*i])).collect();
+                let ik: Vec<val::NV> = k.iter().map(val::norm).collect();
+                if rk != ik {
+                    return Some(("stale_index_entry", format!("index {} on {} maps key {:?} to position {} whose row has key {:?}", name, tb, ik, p, rk)));
+                }
+                if !seen.insert(*p) {
+                    return Some(("stale_index_entry", format!("index {} on {} lists position {} twice", name, tb, p)));
+                }
+            }
+        }
+        if let Some(p) = required.iter().find(|p| !seen.contains(p)) {
+            return Some(("missing_index_entry", format!("index {} on {} has no entry for the row at position {} ({} rows, {} indexed)", name, tb, p, rows.len(), seen.len())));
+        }
+    }
+    // I5b — the hash index a stored table keeps for each PRIMARY KEY / UNIQUE constraint its
+    // definition lists holds the keys of the rows (vcore C15, part 1; leftover hash indexes of
+    // constraints that no longer exist are not looked at)
+    if let Some((aspect, what)) = vcore::checks::c15::check_state(db, &|_| None) {
+        let _ = aspect;
+        return Some(("constraint_index_stale", what));
+    }
+    // I6 — point queries (which may be answered from an index) agree with a scan
+    // (only columns that some registered index names can be answered from an index)
+    let indexed_cols: BTreeSet<&String> = si.values().chain(ci.values()).flat_map(|(_, cols)| cols.iter()).collect();
+    for (t, cols) in &m.tables {
+        if !indexes_changed && !table_changed(t) {
+            continue;
+        }
+        let Some((_, rows)) = stored(db, t) else { continue };
+        for (ci, c) in cols.iter().enumerate() {
+            if !indexed_cols.contains(c) {
+                continue;
+            }
+            let mut vals: Vec<val::NV> = rows.iter().map(|r| val::norm(&r[ci])).filter(|v| *v != val::NV::Null).collect();
+            vals.sort();
+            vals.dedup();
+            // one value that is absent as well: a stale entry for a vanished row would answer it
+            vals.push(val::NV::Int(10));
+            vals.dedup();
+            // one value that is present and the absent one
+            if vals.len() > 2 {
+                vals.drain(1..vals.len() - 1);
+            }
+            for v in vals.iter() {
+                let val::NV::Int(lit) = v else { continue };
+                let sql = format!("SELECT * FROM {} WHERE {} = {}", q(t), c, lit);
+                let want: Vec<Vec<val::NV>> = {
+                    let mut w: Vec<Vec<val::NV>> = rows.iter().filter(|r| val::norm(&r[ci]) == *v).map(|r| val::norm_row(r)).collect();
+                    w.sort();
+                    w
+                };
+                match select_cols(db, &sql) {
+                    Ok((_, got)) => {
+                        if val::bag(&got) != want {
+                            return Some(("probe_query", format!("`{}` returns {} but the rows of the table give {}", sql, val::fmt_bag(&val::bag(&got)), val::fmt_bag(&want))));
+                        }
+                    }
+                    Err(e) => return Some(("probe_query", format!("`{}` fails: {}", sql, vcore::util::trunc(&e, 200)))),
+                }
+            }
+        }
+    }
+    None
+}
+
+/// Transition checks: a (re-)created table starts empty and un-indexed; DDL keeps retained data.
+fn check_transition(pre: &Database, m: &M, o: &Op, post: &Database, s: &Stepped, ok: bool) -> Option<(&'static str, String)> {
+    if let (Kind::CreateTable { .. }, true) = (&o.kind, ok) {
+        let t = o.target.unwrap();
+        if let Some((_, rows)) = stored(post, t) {
+            if !rows.is_empty() {
+                return Some(("created_table_not_empty", format!("table {} was just created but holds {}", t, val::fmt_rows(&rows))));
+            }
+        }
+        for (name, (tb, _)) in storage_indexes(post).iter().chain(catalog_indexes(post).0.iter()) {
+            if tb == t {
+                return Some(("created_table_has_index", format!("table {} was just created but index {} is registered on it", t, name)));
+            }
+        }
+    }
+    if o.kind == Kind::Dml {
+        return None;
+    }
+    // data of retained columns (any DDL statement, whatever its outcome)
+    for (t, pre_cols) in &m.tables {
+        let (post_t, map): (String, BTreeMap<String, String>) = match &s.column_map {
+            Some((a, b, map)) if a == t => (b.clone(), map.clone()),
+            _ => (t.clone(), pre_cols.iter().map(|c| (c.clone(), c.clone())).collect()),
+        };
+        let Some(post_cols) = s.m.tables.get(&post_t) else { continue }; // dropped
+        if let (Kind::CreateTable { .. }, true) = (&o.kind, ok) {
+            if o.target == Some(t.as_str()) {
+                continue; // re-created
+            }
+        }
+        let retained: Vec<(String, String)> = pre_cols.iter().filter_map(|c| map.get(c).map(|d| (c.clone(), d.clone()))).filter(|(_, d)| post_cols.contains(d)).collect();
+        let (Some((pc, pr)), Some((qc, qr))) = (stored(pre, t), stored(post, &post_t)) else { continue };
+        let a = project(&pc, &pr, &retained.iter().map(|x| x.0.clone()).collect::<Vec<_>>());
+        let b = project(&qc, &qr, &retained.iter().map(|x| x.1.clone()).collect::<Vec<_>>());
+        if let (Some(a), Some(b)) = (a, b) {
+            if a != b {
+                return Some(("retained_data_changed", format!("columns {:?} of {} held {} before and {} after", retained.iter().map(|x| &x.0).collect::<Vec<_>>(), t, val::fmt_bag(&a), val::fmt_bag(&b))));
+            }
+        }
+    }
+    None
+}
+
+// ---------------------------------------------------------------------------------------------
+// the search
+// ---------------------------------------------------------------------------------------------
+
+struct C33Spec {
+    /// (fingerprint of the database, model) pairs whose state invariants already held; None in
+    /// the stateless guard pass, which must not rely on the fingerprint
+    checked: Option<std::sync::Mutex<std::collections::HashSet<u128>>>,
+    ops: Vec<Op>,
+    by_sql: HashMap<String, usize>,
+    preludes: Vec<Vec<&'static str>>,
+}
+
+const PRELUDES: &[&[&str]] = &[
+    &[],
+    &["CREATE TABLE t (a INT, b INT)", "INSERT INTO t VALUES (1, 10), (2, 20)", "CREATE INDEX i ON t (b)"],
+    &["CREATE TABLE t (a INT, b INT)", "CREATE TABLE \"t\" (a INT, b INT)", "INSERT INTO t VALUES (1, 10)", "INSERT INTO \"t\" VALUES (5, 10)", "CREATE INDEX i ON \"t\" (b)"],
+];
+
+fn prelude_model(stmts: &[&str], ops: &[Op]) -> (Database, M) {
+    let mut db = Database::new();
+    let mut m = M::default();
+    for s in stmts {
+        let o = ops.iter().find(|o| o.sql == *s).cloned().unwrap_or_else(|| op(s, "insert", "folded", None, Kind::Dml));
+        let out = apply_op(&mut db, s);
+        if !out.is_ok() {
+            panic!("harness prelude statement failed: {} => {}", s, out.brief());
+        }
+        m = model_step(&m, &o, true).m;
+    }
+    (db, m)
+}
+
+fn case_json(prelude: &[&str], hist: &[String]) -> serde_json::Value {
+    json!({"prelude": prelude, "steps": hist})
+}
+
+impl C33Spec {
+    fn new(thorough: bool) -> Self {
+        let ops = alphabet(thorough);
+        let by_sql = ops.iter().enumerate().map(|(i, o)| (o.sql.clone(), i)).collect();
+        C33Spec { checked: Some(Default::default()), ops, by_sql, preludes: PRELUDES.iter().map(|p| p.to_vec()).collect() }
+    }
+}
+
+/// model + index of the prelude the history started from (needed for replay files)
+#[derive(Clone)]
+pub struct MS {
+    m: M,
+    prelude: usize,
+}
+
+fn signature(inv: &str, o: &Op, m: &M) -> Vec<(&'static str, String)> {
+    let tgt_exists = o.target.map(|t| m.tables.contains_key(t));
+    let idx_on_target = o.target.map(|t| m.indexes.values().any(|(tb, _)| tb == t)).unwrap_or(false);
+    let other_case_exists = match o.target {
+        Some("T") => m.tables.contains_key("t"),
+        Some("t") => m.tables.contains_key("T"),
+        _ => false,
+    };
+    vec![
+        ("invariant", inv.to_string()),
+        ("stmt", o.shape.to_string()),
+        ("spelling", o.spelling.to_string()),
+        ("target_declared", tgt_exists.map(|b| b.to_string()).unwrap_or_else(|| "-".into())),
+        ("index_on_target", idx_on_target.to_string()),
+        ("other_case_twin_declared", other_case_exists.to_string()),
+    ]
+}
+
+impl Spec for C33Spec {
+    type M = MS;
+    fn init(&self) -> Vec<Node<MS>> {
+        self.preludes
+            .iter()
+            .enumerate()
+            .map(|(i, p)| {
+                let (db, m) = prelude_model(p, &self.ops);
+                Node { db, model: MS { m, prelude: i }, hist: vec![] }
+            })
+            .collect()
+    }
+    fn alphabet(&self, _db: &Database, _m: &MS, _h: &[String]) -> Vec<String> {
+        self.ops.iter().map(|o| o.sql.clone()).collect()
+    }
+    fn apply(&self, db: &mut Database, op: &str) -> Out {
+        apply_op(db, op)
+    }
+    fn model_key(&self, m: &MS) -> String {
+        format!("{:?}", m.m)
+    }
+    fn step(&self, pre: &Database, ms: &MS, op: &str, post: &Database, out: &Out, hist: &[String], rep: &Report) -> Option<MS> {
+        let o = &self.ops[self.by_sql[op]];
+        let ok = out.is_ok();
+        let s = model_step(&ms.m, o, ok);
+        let state_key = self.checked.as_ref().map(|_| vcore::util::hash128(format!("{}\u{1}{:?}\u{1}{:?}", vcore::fp::canon(post), s.m, s.may_vanish).as_bytes()));
+        let seen = match (&self.checked, state_key) {
+            (Some(c), Some(k)) => c.lock().unwrap().contains(&k),
+            _ => false,
+        };
+        let bad = check_transition(pre, &ms.m, o, post, &s, ok).or_else(|| if seen { None } else { check_state(post, &s.m, &s.may_vanish, Some(pre)) });
+        if let (None, Some(c), Some(k)) = (&bad, &self.checked, state_key) {
+            c.lock().unwrap().insert(k);
+        }
+        if let Some((inv, what)) = bad {
+            // re-execute the case from scratch twice before reporting it (DESIGN R3)
+            let case = case_json(&self.preludes[ms.prelude], hist);
+            let again = [run_case(&case, false), run_case(&case, false)];
+            if again.iter().all(|r| matches!(r, Ok(Some((i, _))) if i == inv)) {
+                rep.violation(&signature(inv, o, &ms.m), format!("after `{}` ({}): {}", op, out.brief(), what), case);
+            } else {
+                rep.machinery_error(format!("case {:?} gave `{}` in the search but {:?} when re-executed", hist, inv, again));
+            }
+            return None; // inconsistent states are reported, not expanded
+        }
+        // an index that legitimately vanished leaves the model
+        let mut m2 = s.m;
+        if !s.may_vanish.is_empty() {
+            let si = storage_indexes(post);
+            m2.indexes.retain(|k, _| si.contains_key(k));
+            for (k, v) in si {
+                m2.indexes.insert(k, v);
+            }
+        }
+        Some(MS { m: m2, prelude: ms.prelude })
+    }
+}
+
+pub fn run(tier: &str) -> i32 {
+    let mut rep = Report::new("C33", tier, "model_checking");
+    vibesql_types::verif::reset();
+    let thorough = tier == "thorough";
+    let spec = C33Spec::new(thorough);
+    // self-test of the oracle on the initial states: a check that rejects its own preludes is broken
+    for n in spec.init() {
+        if let Some((inv, what)) = check_state(&n.db, &n.model.m, &BTreeSet::new(), None) {
+            rep.machinery_error(format!("oracle rejects prelude #{}: {} {}", n.model.prelude, inv, what));
+            return rep.finish();
+        }
+    }
+    let (d_state, d_tree) = if thorough { (5, 3) } else { (3, 2) };
+    let caps = Caps { max_states: if thorough { 2_000_000 } else { 300_000 }, max_secs: if thorough { 420.0 } else { 22.0 } };
+    // the guard pass re-checks every state (no verdict cache); the quick tier runs it from the
+    // populated, indexed initial database only
+    let mut guard = C33Spec { checked: None, ..C33Spec::new(thorough) };
+    if !thorough {
+        guard.preludes = vec![PRELUDES[1].to_vec()];
+    }
+    let st2 = histmc::bfs(&guard, d_tree, false, &rep, &Caps { max_states: 5_000_000, max_secs: if thorough { 180.0 } else { 15.0 } });
+    let st = histmc::bfs(&spec, d_state, true, &rep, &caps);
+    histmc::stats_into(&mut rep, "", &st);
+    histmc::stats_into(&mut rep, "stateless_guard_", &st2);
+    rep.set("alphabet_size", json!(spec.ops.len()));
+    rep.set("select_statements_executed_by_the_oracle", json!(crate::common::SELECTS.load(std::sync::atomic::Ordering::Relaxed)));
+    rep.set("oracle_select_thread_seconds", json!(crate::common::SELECT_NANOS.load(std::sync::atomic::Ordering::Relaxed) as f64 / 1e9));
+    rep.set("initial_states", json!(spec.preludes.len()));
+    rep.set("exhaustive", json!(!st.capped && !st2.capped));
+    rep.set("samples", json!(st.samples));
+    rep.set("rule", json!("BFS over all statement histories of the alphabet from three initial databases on the real Database; states merged on the canonical Debug fingerprint of the whole value plus the model of declared objects; in every reached state: catalog listing = storage tables = declared tables, declared columns = catalog columns = stored columns = SELECT * columns, both index registries equal and refer to declared tables/columns, index entries mirror the rows, point queries agree with a scan; every DDL transition keeps the data of retained columns; a created table is empty and un-indexed; inconsistent states are reported and not expanded"));
+    let (reach, vac) = vcore::report::reach_json(&["index_scan"]);
+    rep.set("reach", reach);
+    rep.set("vacuous_mechanisms", vac);
+    rep.assume("equal canonical Debug fingerprints imply equal futures (all Database fields are printed; masked fields listed in vcore/fp.rs)");
+    rep.assume("identifier rules as documented in Catalog::new: unquoted identifiers fold to upper case, delimited identifiers keep their case, lookups are case-sensitive");
+    rep.finish()
+}
+
+fn run_case(case: &serde_json::Value, verbose: bool) -> Result<Option<(String, String)>, String> {
+    let ops = alphabet(true);
+    let prelude: Vec<String> = case["prelude"].as_array().map(|a| a.iter().filter_map(|x| x.as_str().map(|s| s.to_string())).collect()).unwrap_or_default();
+    let steps: Vec<String> = case["steps"].as_array().map(|a| a.iter().filter_map(|x| x.as_str().map(|s| s.to_string())).collect()).unwrap_or_default();
+    let pre_refs: Vec<&str> = prelude.iter().map(|s| s.as_str()).collect();
+    let (mut db, mut m) = prelude_model(&pre_refs, &ops);
+    if verbose {
+        for p in &prelude {
+            println!("{}", p);
+        }
+        println!("{}", describe(&db));
+    }
+    for sql in &steps {
+        let Some(o) = ops.iter().find(|o| o.sql == *sql) else { return Err(format!("unknown op {}", sql)) };
+        let pre = db.clone();
+        let out = apply_op(&mut db, sql);
+        let ok = out.is_ok();
+        let s = model_step(&m, o, ok);
+        if verbose {
+            println!("{}\n   => {}", sql, out.brief());
+            println!("{}", describe(&db));
+            println!("  declared: tables {:?} indexes {:?}", s.m.tables, s.m.indexes);
+        }
+        let bad = check_transition(&pre, &m, o, &db, &s, ok).or_else(|| check_state(&db, &s.m, &s.may_vanish, None));
+        if let Some((inv, what)) = bad {
+            return Ok(Some((inv.to_string(), what)));
+        }
+        m = s.m;
+        if !s.may_vanish.is_empty() {
+            let si = storage_indexes(&db);
+            m.indexes.retain(|k, _| si.contains_key(k));
+            for (k, v) in si {
+                m.indexes.insert(k, v);
+            }
+        }
+    }
+    Ok(None)
+}
+
+pub fn replay(case: &serde_json::Value) -> i32 {
+    match run_case(case, true) {
+        Ok(Some((inv, what))) => {
+            println!("VIOLATED invariant {}: {}", inv, what);
+            1
+        }
+        Ok(None) => {
+            println!("no invariant violated on this tree");
+            0
+        }
+        Err(e) => {
+            eprintln!("MACHINERY-ERROR {}", e);
+            2
+        }
+    }
 }
